@@ -33,7 +33,7 @@ func specB64Inv(c byte) byte {
 
 // The decode table equals the inverse alphabet. Established by init (obligation below), stored to by nobody else
 // (checked syntactically over the package), hence assumed at the entry of every function under contract.
-//@ global inv_decodeMap
+// @ global inv_decodeMap
 func inv_decodeMap() bool {
 	return vs.Forall(0, 256, func(i int) bool { return decodeMap[i] == specB64Inv(byte(i)) })
 }
@@ -61,10 +61,12 @@ func specAllB64(s []byte) bool {
 }
 
 // decodeKey as the ciphers use it: in place (dst and src are the same 32-byte buffer).
-//@ verify decodeKey pre=pre_decodeKey post=post_decodeKey_ok,post_decodeKey_bad props=C20,C09,C12 modular modifies=dst
-//@ loop decodeKey 0 unroll 8
-//@ loop decodeKey 1 unroll 4
-func pre_decodeKey(dst, src []byte) bool { return len(src) == 32 && len(dst) == 32 && &dst[0] == &src[0] }
+// @ verify decodeKey pre=pre_decodeKey post=post_decodeKey_ok,post_decodeKey_bad props=C20,C09,C12 modular modifies=dst
+// @ loop decodeKey 0 unroll 8
+// @ loop decodeKey 1 unroll 4
+func pre_decodeKey(dst, src []byte) bool {
+	return len(src) == 32 && len(dst) == 32 && &dst[0] == &src[0]
+}
 func post_decodeKey_ok(src []byte, old_src []byte, res0 int, res1 error) bool {
 	return !specAllB64(old_src) || (res1 == nil && res0 == 24 && vs.Forall(0, 24, func(q int) bool { return src[q] == specDecByte(old_src, q) }))
 }
@@ -80,8 +82,8 @@ func specBE32(d []byte, i int) uint32 {
 }
 
 // specXteaEnc / specXteaDec: the 64-bit block (y,z) after 32 cycles, packed as y<<32|z.
-//@ loop specXteaEnc 0 unroll 32
-//@ loop specXteaDec 0 unroll 32
+// @ loop specXteaEnc 0 unroll 32
+// @ loop specXteaDec 0 unroll 32
 func specXteaEnc(y, z uint32, k [4]uint32) uint64 {
 	sum := uint32(0)
 	for r := 0; r < 32; r++ {
@@ -102,15 +104,15 @@ func specXteaDec(y, z uint32, k [4]uint32) uint64 {
 }
 
 // Decryption inverts encryption on every block under every key (2^64 blocks x 2^128 keys).
-//@ lemma lemmaXteaWords props=C20
+// @ lemma lemmaXteaWords props=C20
 func lemmaXteaWords(y, z uint32, k [4]uint32) bool {
 	e := specXteaEnc(y, z, k)
 	return specXteaDec(uint32(e>>32), uint32(e), k) == uint64(y)<<32|uint64(z)
 }
 
-//@ verify (*Xtea).encrypt pre=pre_encrypt post=post_encrypt props=C20
-//@ loop (*Xtea).encrypt 0 unroll 3
-//@ loop (*Xtea).encrypt 1 unroll 32
+// @ verify (*Xtea).encrypt pre=pre_encrypt post=post_encrypt props=C20
+// @ loop (*Xtea).encrypt 0 unroll 3
+// @ loop (*Xtea).encrypt 1 unroll 32
 func pre_encrypt(c *Xtea, data []byte) bool { return c != nil && len(data) == 24 }
 func post_encrypt(c *Xtea, data []byte, old_data []byte, res0 error) bool {
 	return res0 == nil && vs.Forall(0, 3, func(b int) bool {
@@ -119,9 +121,9 @@ func post_encrypt(c *Xtea, data []byte, old_data []byte, res0 error) bool {
 	})
 }
 
-//@ verify (*Xtea).decrypt pre=pre_encrypt post=post_decrypt props=C20 modular modifies=data
-//@ loop (*Xtea).decrypt 0 unroll 3
-//@ loop (*Xtea).decrypt 1 unroll 32
+// @ verify (*Xtea).decrypt pre=pre_encrypt post=post_decrypt props=C20 modular modifies=data
+// @ loop (*Xtea).decrypt 0 unroll 3
+// @ loop (*Xtea).decrypt 1 unroll 32
 func post_decrypt(c *Xtea, data []byte, old_data []byte) bool {
 	return vs.Forall(0, 3, func(b int) bool {
 		e := specXteaDec(specBE32(old_data, 8*b), specBE32(old_data, 8*b+4), c.key)
@@ -154,7 +156,7 @@ func specSextet(b0, b1, b2 byte, r int) byte {
 	return byte(v>>(18-6*uint(r))) & 0x3f
 }
 
-//@ assume (*encoding/base64.Encoding).EncodeToString post=post_b64EncodeToString
+// @ assume (*encoding/base64.Encoding).EncodeToString post=post_b64EncodeToString
 func post_b64EncodeToString(src []byte, res0 string) bool {
 	return len(src) != 24 || (len(res0) == 32 && vs.Forall(0, 32, func(j int) bool {
 		q := j / 4
@@ -164,7 +166,7 @@ func post_b64EncodeToString(src []byte, res0 string) bool {
 
 // Decoding inverts encoding on every 3-byte group (hence on all 24 bytes) and every character produced is in
 // the alphabet.
-//@ lemma lemmaB64Group props=C20
+// @ lemma lemmaB64Group props=C20
 func lemmaB64Group(b0, b1, b2 byte) bool {
 	c0, c1, c2, c3 := specB64Char(specSextet(b0, b1, b2, 0)), specB64Char(specSextet(b0, b1, b2, 1)), specB64Char(specSextet(b0, b1, b2, 2)), specB64Char(specSextet(b0, b1, b2, 3))
 	v := uint32(specB64Inv(c0))<<18 | uint32(specB64Inv(c1))<<12 | uint32(specB64Inv(c2))<<6 | uint32(specB64Inv(c3))
@@ -192,7 +194,7 @@ func specXteaEncByte(key [4]uint32, k []byte, i int) byte {
 	return byte(e >> (8 * uint(7-i%8)))
 }
 
-//@ verify (*Xtea).EncryptKey pre=pre_Xtea_EncryptKey post=post_Xtea_EncryptKey props=C20
+// @ verify (*Xtea).EncryptKey pre=pre_Xtea_EncryptKey post=post_Xtea_EncryptKey props=C20
 func pre_Xtea_EncryptKey(c *Xtea, k security.Key) bool { return c != nil && len(k) == 24 }
 func post_Xtea_EncryptKey(c *Xtea, k security.Key, res0 string, res1 error) bool {
 	return res1 == nil && len(res0) == 32 && vs.Forall(0, 32, func(j int) bool {
@@ -221,7 +223,7 @@ func specUnwhiten(d0, d1, di byte, i int) byte {
 	return di ^ d1
 }
 
-//@ verify (*Xtea).DecryptKey pre=pre_Xtea_DecryptKey post=post_Xtea_DecryptKey_bad,post_Xtea_DecryptKey_ok,post_Xtea_DecryptKey_bytes props=C20,C09 opaque=specXteaDec
+// @ verify (*Xtea).DecryptKey pre=pre_Xtea_DecryptKey post=post_Xtea_DecryptKey_bad,post_Xtea_DecryptKey_ok,post_Xtea_DecryptKey_bytes props=C20,C09 opaque=specXteaDec
 func pre_Xtea_DecryptKey(c *Xtea, buffer []byte) bool { return c != nil }
 func post_Xtea_DecryptKey_bad(c *Xtea, buffer []byte, old_buffer []byte, res0 security.Key, res1 error) bool {
 	// anything that is not 32 characters of the alphabet is refused with an error
@@ -262,26 +264,26 @@ func specWhitenedWord(k []byte, w int) uint32 {
 
 // Each block lemma is stated under the corresponding instance of lemmaXteaWords (proved above for all blocks and
 // keys), with the two XTEA spec functions kept uninterpreted: what remains is base64 inversion plus whitening.
-//@ lemma lemmaXteaKeyBlock0 pre=pre_lemmaXteaKey props=C20 opaque=specXteaEnc,specXteaDec
+// @ lemma lemmaXteaKeyBlock0 pre=pre_lemmaXteaKey props=C20 opaque=specXteaEnc,specXteaDec
 func lemmaXteaKeyBlock0(key [4]uint32, k []byte, s []byte) bool {
 	return !lemmaXteaWords(specWhitenedWord(k, 0), specWhitenedWord(k, 1), key) ||
 		vs.Forall(0, 8, func(i int) bool { return specRoundTripByte(key, k, s, i) })
 }
 
-//@ lemma lemmaXteaKeyBlock1 pre=pre_lemmaXteaKey props=C20 opaque=specXteaEnc,specXteaDec
+// @ lemma lemmaXteaKeyBlock1 pre=pre_lemmaXteaKey props=C20 opaque=specXteaEnc,specXteaDec
 func lemmaXteaKeyBlock1(key [4]uint32, k []byte, s []byte) bool {
 	return !lemmaXteaWords(specWhitenedWord(k, 0), specWhitenedWord(k, 1), key) || !lemmaXteaWords(specWhitenedWord(k, 2), specWhitenedWord(k, 3), key) ||
 		vs.Forall(8, 16, func(i int) bool { return specRoundTripByte(key, k, s, i) })
 }
 
-//@ lemma lemmaXteaKeyBlock2 pre=pre_lemmaXteaKey props=C20 opaque=specXteaEnc,specXteaDec
+// @ lemma lemmaXteaKeyBlock2 pre=pre_lemmaXteaKey props=C20 opaque=specXteaEnc,specXteaDec
 func lemmaXteaKeyBlock2(key [4]uint32, k []byte, s []byte) bool {
 	return !lemmaXteaWords(specWhitenedWord(k, 0), specWhitenedWord(k, 1), key) || !lemmaXteaWords(specWhitenedWord(k, 4), specWhitenedWord(k, 5), key) ||
 		vs.Forall(16, 24, func(i int) bool { return specRoundTripByte(key, k, s, i) })
 }
 
 // every character EncryptKey produces is in the alphabet (so DecryptKey does not refuse it)
-//@ lemma lemmaEncCharsValid props=C20
+// @ lemma lemmaEncCharsValid props=C20
 func lemmaEncCharsValid(v byte) bool { return specB64Inv(specB64Char(v&0x3f)) == v&0x3f }
 
 // ---------------------------------------------------------------------------------------------------------
@@ -289,19 +291,19 @@ func lemmaEncCharsValid(v byte) bool { return specB64Inv(specB64Char(v&0x3f)) ==
 // x/crypto's salsa.XORKeyStream is outside the verified code; its documented contract: out = in XOR a key stream
 // that depends on the counter and the key only - not on the data. specKS is that key stream (uninterpreted).
 
-//@ opaque specKS
+// @ opaque specKS
 func specKS(c *Salsa, i int) byte { return 0 }
 
 // ASSUMED, not proved (box copies the nonce into array fields and calls HSalsa20 / XORKeyStream: slices of array
 // fields are outside the verifier's memory model): box XORs the data with a key stream fixed by the cipher object
-//@ assume (*Salsa).box iface post=post_Salsa_box modifies=data
-func post_Salsa_box(c *Salsa, data, old_data []byte) bool {
-	return vs.Forall(0, 24, func(i int) bool { return len(data) != 24 || data[i] == old_data[i]^specKS(c, i) })
+// @ assume (*Salsa).box iface post=post_Salsa_box modifies=data
+func post_Salsa_box(c *Salsa, data, old_data []byte, res0 error) bool {
+	return res0 == nil && vs.Forall(0, 24, func(i int) bool { return len(data) != 24 || data[i] == old_data[i]^specKS(c, i) })
 }
 
 // Salsa.DecryptKey: a 32-character key string decodes to 24 bytes, each XOR-ed with a key-stream byte that does
 // not depend on the string. Anything that is not 32 alphabet characters is refused.
-//@ verify (*Salsa).DecryptKey pre=pre_Salsa post=post_Salsa_DecryptKey_bad,post_Salsa_DecryptKey_xor props=C12,C20
+// @ verify (*Salsa).DecryptKey pre=pre_Salsa post=post_Salsa_DecryptKey_bad,post_Salsa_DecryptKey_xor props=C12,C20
 func pre_Salsa(c *Salsa) bool { return c != nil }
 func post_Salsa_DecryptKey_bad(buffer []byte, old_buffer []byte, res1 error) bool {
 	return (len(buffer) == 32 && specAllB64(old_buffer)) || res1 != nil
@@ -320,10 +322,89 @@ func post_Salsa_DecryptKey_xor(c *Salsa, buffer []byte, old_buffer []byte, res0 
 // plaintexts p, p' that share contract, signature and master id (so that contract.Validate accepts both) exist
 // such that p' grants a permission p does not. It is FALSE - one bit of byte 15 (ciphertext character 20/21)
 // turns a read key into a read-write key. Isolated as this lemma; known finding for v2 (Salsa) and v3 (Shuffle).
-//@ lemma lemmaStreamCipherNoEscalation pre=pre_lemmaStream props=C12
+// @ lemma lemmaStreamCipherNoEscalation pre=pre_lemmaStream props=C12
 func pre_lemmaStream(p, q, ks []byte) bool { return len(p) == 24 && len(q) == 24 && len(ks) == 24 }
 func lemmaStreamCipherNoEscalation(p, q, ks []byte) bool {
 	// p: an issued key; q: what the broker decrypts after the attacker XOR-ed the ciphertext with (p^q) - any q is reachable
 	sameOwner := vs.Forall(2, 12, func(i int) bool { return p[i] == q[i] }) // master id, contract, signature
-	return !sameOwner || q[15]&^p[15] == 0                                     // ... then q grants nothing p did not
+	return !sameOwner || q[15]&^p[15] == 0                                  // ... then q grants nothing p did not
+}
+
+// ---------------------------------------------------------------------------------------------------------
+// Salsa / Shuffle round trip (C20: "under that cipher every 24-byte key encrypts to a 32-character URL-safe string
+// that decrypts to the same key"). EncryptKey = base64url of (key XOR key stream); DecryptKey = (decoded XOR key
+// stream) (contract above); XOR-ing twice with the same stream and decode-after-encode give the key back.
+
+// @ verify (*Salsa).EncryptKey pre=pre_Salsa_EncryptKey post=post_Salsa_EncryptKey props=C20
+func pre_Salsa_EncryptKey(c *Salsa, k security.Key) bool { return c != nil && len(k) == 24 }
+func specSalsaEncChar(c *Salsa, k []byte, j int) byte {
+	q := j / 4
+	return specB64Char(specSextet(k[3*q]^specKS(c, 3*q), k[3*q+1]^specKS(c, 3*q+1), k[3*q+2]^specKS(c, 3*q+2), j%4))
+}
+func post_Salsa_EncryptKey(c *Salsa, k security.Key, res0 string, res1 error) bool {
+	return res1 == nil && len(res0) == 32 && vs.Forall(0, 32, func(j int) bool { return res0[j] == specSalsaEncChar(c, k, j) })
+}
+
+// the round trip over the two postconditions: s = the characters EncryptKey produces for k; DecryptKey's result
+// byte i is specDecByte(s, i) ^ KS(i); that is k[i] - and every character is in the alphabet, so it is not refused
+// @ lemma lemmaSalsaRoundTrip pre=pre_lemmaSalsaRoundTrip props=C20
+func pre_lemmaSalsaRoundTrip(c *Salsa, k []byte, s []byte) bool {
+	return c != nil && len(k) == 24 && len(s) == 32 && vs.Forall(0, 32, func(j int) bool { return s[j] == specSalsaEncChar(c, k, j) })
+}
+func lemmaSalsaRoundTrip(c *Salsa, k []byte, s []byte) bool {
+	return specAllB64(s) && vs.Forall(0, 24, func(i int) bool { return specDecByte(s, i)^specKS(c, i) == k[i] })
+}
+
+// Shuffle (license v3): the two salt bytes travel in clear and select the key stream for the other 22 bytes. crypt
+// (array fields, HSalsa20, XORKeyStream) is ASSUMED like Salsa.box: bytes 0,1 unchanged, byte i >= 2 XOR-ed with a
+// stream byte that depends on the cipher object and the two salt bytes only.
+// @ opaque specShuffleKS
+func specShuffleKS(c *Shuffle, s0, s1 byte, i int) byte { return 0 }
+
+// @ assume (*Shuffle).crypt iface post=post_Shuffle_crypt modifies=data
+func post_Shuffle_crypt(c *Shuffle, data, old_data []byte, res0 error) bool {
+	return res0 == nil && len(data) != 24 || (res0 == nil && data[0] == old_data[0] && data[1] == old_data[1] &&
+		vs.Forall(2, 24, func(i int) bool { return data[i] == old_data[i]^specShuffleKS(c, old_data[0], old_data[1], i) }))
+}
+
+func specShuffleByte(c *Shuffle, k []byte, i int) byte { // byte i of what crypt makes of the 24 bytes k
+	if i < 2 {
+		return k[i]
+	}
+	return k[i] ^ specShuffleKS(c, k[0], k[1], i)
+}
+
+// @ verify (*Shuffle).EncryptKey pre=pre_Shuffle_EncryptKey post=post_Shuffle_EncryptKey props=C20
+func pre_Shuffle_EncryptKey(c *Shuffle, k security.Key) bool { return c != nil && len(k) == 24 }
+func specShuffleEncChar(c *Shuffle, k []byte, j int) byte {
+	q := j / 4
+	return specB64Char(specSextet(specShuffleByte(c, k, 3*q), specShuffleByte(c, k, 3*q+1), specShuffleByte(c, k, 3*q+2), j%4))
+}
+func post_Shuffle_EncryptKey(c *Shuffle, k security.Key, res0 string, res1 error) bool {
+	return res1 == nil && len(res0) == 32 && vs.Forall(0, 32, func(j int) bool { return res0[j] == specShuffleEncChar(c, k, j) })
+}
+
+// @ verify (*Shuffle).DecryptKey pre=pre_Shuffle post=post_Shuffle_DecryptKey_bad,post_Shuffle_DecryptKey_bytes props=C20,C12
+func pre_Shuffle(c *Shuffle) bool { return c != nil }
+func post_Shuffle_DecryptKey_bad(buffer []byte, old_buffer []byte, res1 error) bool {
+	return (len(buffer) == 32 && specAllB64(old_buffer)) || res1 != nil
+}
+func post_Shuffle_DecryptKey_bytes(c *Shuffle, buffer []byte, old_buffer []byte, res0 security.Key, res1 error) bool {
+	if len(buffer) != 32 || !specAllB64(old_buffer) {
+		return true
+	}
+	// (the stream is selected by the two salt bytes, which are the first two bytes of the result as well)
+	return res1 == nil && len(res0) == 24 && res0[0] == specDecByte(old_buffer, 0) && res0[1] == specDecByte(old_buffer, 1) &&
+		vs.Forall(2, 24, func(i int) bool { return res0[i] == specDecByte(old_buffer, i)^specShuffleKS(c, res0[0], res0[1], i) })
+}
+
+// @ lemma lemmaShuffleRoundTrip pre=pre_lemmaShuffleRoundTrip props=C20
+func pre_lemmaShuffleRoundTrip(c *Shuffle, k []byte, s []byte) bool {
+	return c != nil && len(k) == 24 && len(s) == 32 && vs.Forall(0, 32, func(j int) bool { return s[j] == specShuffleEncChar(c, k, j) })
+}
+func lemmaShuffleRoundTrip(c *Shuffle, k []byte, s []byte) bool {
+	d0, d1 := specDecByte(s, 0), specDecByte(s, 1)
+	return specAllB64(s) && d0 == k[0] && d1 == k[1] && vs.Forall(2, 24, func(i int) bool {
+		return specDecByte(s, i)^specShuffleKS(c, d0, d1, i) == k[i]
+	})
 }
